@@ -36,9 +36,9 @@ def pollers(ctx, target: Func) -> Set[int]:
 
 
 # ----------------------------------------------------------------------- C01-R1
-def rule_dispatch_loop_poll(ctx, rep, rid: str) -> None:
+def rule_dispatch_loop_poll(ctx, rep, rid: str, which: str = "time") -> None:
     rep.rule(rid, "every loop that drives the opcode dispatcher calls the limit check on every iteration path, before the dispatcher and before any continue", floor=2)
-    lc = ctx.facts.limit_check()
+    lc = ctx.facts.limit_check() if which == "time" else ctx.facts.memory_check()
     poll = pollers(ctx, lc)
     disp = ctx.facts.dispatch_entry_ids()
     wrappers = {id(w) for w in ctx.facts.dispatch_wrappers()}
@@ -244,10 +244,14 @@ def rule_time_check_shape(ctx, rep, rid: str) -> None:
                 have_elapsed = True
             elif pol and txt in ("self.time_limit", "self.time_limit is not None") or (pol and txt in {f"self.{d} is not None" for d in dattrs}):
                 pass
-            elif pol and isinstance(a2, ast.Compare) and isinstance(a2.ops[0], ast.Eq) and isinstance(a2.left, ast.BinOp) and isinstance(a2.left.op, ast.Mod):
+            elif pol and isinstance(a2, ast.Compare) and isinstance(a2.ops[0], ast.Eq) and isinstance(a2.left, ast.BinOp) and isinstance(a2.left.op, (ast.Mod, ast.BitAnd)):
                 k = a2.left.right
                 rhs = a2.comparators[0]
-                if not (isinstance(k, ast.Constant) and isinstance(k.value, int) and 1 <= k.value <= 10000):
+                if isinstance(a2.left.op, ast.BitAnd):
+                    # `counter & (2**k - 1) == 0`: every 2**k-th value
+                    if not (isinstance(k, ast.Constant) and isinstance(k.value, int) and 0 <= k.value < 16384 and (k.value + 1) & k.value == 0):
+                        probs.append(f"poll mask {norm(k)} is not 2**k - 1 with 2**k <= 16384")
+                elif not (isinstance(k, ast.Constant) and isinstance(k.value, int) and 1 <= k.value <= 10000):
                     probs.append(f"poll period {norm(k)} is not an integer literal in 1..10000")
                 if not (isinstance(rhs, ast.Constant) and rhs.value == 0):
                     probs.append(f"poll phase test {txt} is not '== 0'")
@@ -259,6 +263,14 @@ def rule_time_check_shape(ctx, rep, rid: str) -> None:
         if counter_attr is not None:
             # the counter must be incremented by 1 unconditionally at the top level of the function
             inc = [s for s in lc.body() if isinstance(s, ast.AugAssign) and norm(s.target) == counter_attr and isinstance(s.op, ast.Add) and norm(s.value) == "1"]
+            if not inc:
+                # or inside the `limit configured` branch that also holds the raise: still once per call that can raise
+                for s in lc.own_nodes():
+                    if isinstance(s, ast.AugAssign) and norm(s.target) == counter_attr and isinstance(s.op, ast.Add) and norm(s.value) == "1":
+                        blk_owner = getattr(s, "_parent", None)
+                        gs = [norm(t_) for t_, pol_ in guards_of(s, lc.node) if pol_]
+                        if isinstance(blk_owner, ast.If) and all(g_ in ("self.time_limit", "self.time_limit is not None") for g_ in gs) and any(x is r for x in ast.walk(blk_owner)):
+                            inc = [s]
             if not inc:
                 probs.append(f"{counter_attr} is not incremented unconditionally in {lc.name}")
             elif inc[0].lineno > r.lineno:
@@ -319,7 +331,7 @@ def _linear_len_terms(e: ast.AST) -> Optional[Dict[str, float]]:
 
 def rule_memory_check_shape(ctx, rep, rid: str) -> None:
     rep.rule(rid, "the limit check compares a positive linear estimate of operand-stack and call-stack length (>=8 per slot, >=56 per frame) with memory_limit on every call and raises MemoryLimitError", floor=1)
-    lc = ctx.facts.limit_check()
+    lc = ctx.facts.memory_check()
     env = single_assignments(lc)
     rs = raises_in(lc.body(), "MemoryLimitError")
     if not rs:
